@@ -457,6 +457,22 @@ export function f3() {
     [["A", Ref("DU")], ["B", Ref("DU2")], ["C", Ref("DU3")], ["D", Ref("DU4")], ["E", ArrT(Ref("DU"))], ["F", Ref("DU5")], ["G", Ref("DU6")]],
     "discriminated unions",
   );
+  // several properties qualify as the discriminator; members that also carry an index signature
+  add(
+    [
+      Alias("MD1", U(ObjT([Prop("type", L("a")), Prop("version", L("v1")), Prop("a", P("string"))]), ObjT([Prop("type", L("b")), Prop("version", L("v2")), Prop("b", P("number"))]))),
+      Alias("MD2", U(ObjT([Prop("zkind", L("x")), Prop("akind", L("p")), Prop("mkind", L("1")), Prop("v", P("string"))]), ObjT([Prop("zkind", L("y")), Prop("akind", L("q")), Prop("mkind", L("2")), Prop("v", P("number"))]), ObjT([Prop("zkind", L("z")), Prop("akind", L("p")), Prop("mkind", L("3"))]))),
+      // discriminator values that differ only in characters a schema component name cannot carry, in case, or in type
+      Alias("DS1", U(ObjT([Prop("kind", L("a-b")), Prop("x", P("number"))]), ObjT([Prop("kind", L("a_b")), Prop("y", P("string"))]), ObjT([Prop("kind", L("a b")), Prop("z", P("boolean"))]))),
+      Alias("DS2", U(ObjT([Prop("kind", L("ab")), Prop("x", P("number"))]), ObjT([Prop("kind", L("Ab")), Prop("y", P("string"))]))),
+      Alias("DS3", ObjT([Prop("p", U(ObjT([Prop("t", L("true")), Prop("x", P("number"))]), ObjT([Prop("t", L("false")), Prop("y", P("string"))]))), Prop("q", U(ObjT([Prop("t", L(true)), Prop("x", P("string"))]), ObjT([Prop("t", L(false)), Prop("y", P("number"))])))])),
+      Alias("DX1", U(ObjT([Prop("type", L("a"))], [{ key: P("string"), val: P("string") }]), ObjT([Prop("type", L("b")), Prop("x", P("number"))]))),
+      Alias("DX2", U(ObjT([Prop("type", L("a"))], [{ key: P("string"), val: P("unknown") }]), ObjT([Prop("type", L("b")), Prop("x", P("number"))]))),
+      Alias("DX3", U(ObjT([Prop("type", L("a")), Prop("n", P("number"))], [{ key: P("string"), val: U(P("string"), P("number")) }]), ObjT([Prop("type", L("b"))], [{ key: P("string"), val: U(L("b"), P("boolean")) }]))),
+    ],
+    [["A", Ref("MD1")], ["B", Ref("MD2")], ["C", Ref("DX1")], ["D", Ref("DX2")], ["E", Ref("DX3")], ["F", ArrT(Ref("DX1"))], ["G", Ref("DS1")], ["H", Ref("DS2")], ["I", Ref("DS3")]],
+    "discriminated unions with several candidate discriminators / index signatures",
+  );
   add(
     [
       Alias("S1", ObjT([Prop("kind", L("a")), Prop("sub", L("p")), Prop("x", P("number"))])),
